@@ -150,6 +150,7 @@ func runC01(c *an.Ctx) {
 			}
 		}
 	}
+	signingCoverage(c, "COVER", "glow", "EquipmentReport", "Signature")
 	c.Count("WHO-MAY", nw)
 	c.Floor("WHO-MAY", 6)
 
@@ -302,6 +303,36 @@ func authAtIntegratorCall(c *an.Ctx, call *ssa.Call) {
 	c.Check(okLookup, "AUTH", fn, call.Pos(), key("authorized"), "the report's ShortID is present in the equipment map (authorized, not banned) in the same critical section", "comma-ok fact on equipment[R.ShortID]")
 	c.Check(okVerify, "AUTH", fn, call.Pos(), key("verify"), "glow.Verify under the looked-up device key over SigningBytes() of the very report that is integrated, with its own Signature, dominates the integrator call", vdesc)
 
+	windowPred(c, call)
+	// PRED: sentinels
+	po := fi.FieldOfTerm(R, "PowerOutput")
+	rel := an.RelevantFacts(facts, map[string]bool{po.Key(): true})
+	var grid []map[string]*big.Int
+	for _, v := range []string{"0", "1", "2", "3", "2^63-1", "2^63", "2^64-1"} {
+		grid = append(grid, map[string]*big.Int{"p": an.Big(v)})
+	}
+	pts, dis, err := an.ComparePredicate(rel, map[string]string{"p": po.Key()}, grid, func(pt map[string]*big.Int) bool {
+		return pt["p"].Cmp(big.NewInt(1)) > 0
+	}, p.IntBits)
+	switch {
+	case err != nil:
+		c.Undecided("PRED", fn, call.Pos(), key("sentinel"), "sentinel guard could not be evaluated: "+err.Error(), "predicate outside the supported fragment")
+	case len(dis) > 0:
+		c.Violated("PRED", fn, call.Pos(), key("sentinel"), "sentinel rejection differs from PowerOutput in {0, 1}", fmt.Sprintf("first disagreement at PowerOutput=%s (code accepts=%v); guards: %s", dis[0].Env["p"], dis[0].Code, factsText(rel)))
+	default:
+		c.Proved("PRED", fn, call.Pos(), key("sentinel"), "the guards that dominate the integrator call reject exactly PowerOutput 0 and 1", fmt.Sprintf("%d cells compared; guards: %s", pts, factsText(rel)))
+	}
+}
+
+// windowPred: the guards that dominate the handler's integrator call are
+// equivalent to -432 <= ts - now <= 432 without wrap-around.
+func windowPred(c *an.Ctx, call *ssa.Call) {
+	p := c.P
+	fn := call.Parent()
+	fi := p.Info(fn)
+	key := func(s string) string { return an.KeyOf(fn, "integrate-call:"+s) }
+	R := fi.Term(call.Call.Args[1])
+	facts := fi.FactsAt(call)
 	// PRED: window
 	tsKey := an.ConvTermKey("int64", fi.FieldOfTerm(R, "Timeslot"))
 	_ = tsKey
@@ -336,24 +367,29 @@ func authAtIntegratorCall(c *an.Ctx, call *ssa.Call) {
 				fmt.Sprintf("%d cells of the interval partition compared (boundaries +-431/432/433, uint32 extremes); guards: %s", pts, factsText(rel)))
 		}
 	}
-	// PRED: sentinels
-	po := fi.FieldOfTerm(R, "PowerOutput")
-	rel := an.RelevantFacts(facts, map[string]bool{po.Key(): true})
-	var grid []map[string]*big.Int
-	for _, v := range []string{"0", "1", "2", "3", "2^63-1", "2^63", "2^64-1"} {
-		grid = append(grid, map[string]*big.Int{"p": an.Big(v)})
+}
+
+// acceptanceWindow runs windowPred at the UDP handler's integrator call (used by C20).
+func acceptanceWindow(c *an.Ctx) {
+	p := c.P
+	integ := findIntegrator(p)
+	handler, _ := udpRoot(p)
+	if integ == nil || handler == nil {
+		c.Undecided("ANCHOR", nil, 0, "integrator/udp", "report integrator or UDP handler not found", "anchor missing")
+		return
 	}
-	pts, dis, err := an.ComparePredicate(rel, map[string]string{"p": po.Key()}, grid, func(pt map[string]*big.Int) bool {
-		return pt["p"].Cmp(big.NewInt(1)) > 0
-	}, p.IntBits)
-	switch {
-	case err != nil:
-		c.Undecided("PRED", fn, call.Pos(), key("sentinel"), "sentinel guard could not be evaluated: "+err.Error(), "predicate outside the supported fragment")
-	case len(dis) > 0:
-		c.Violated("PRED", fn, call.Pos(), key("sentinel"), "sentinel rejection differs from PowerOutput in {0, 1}", fmt.Sprintf("first disagreement at PowerOutput=%s (code accepts=%v); guards: %s", dis[0].Env["p"], dis[0].Code, factsText(rel)))
-	default:
-		c.Proved("PRED", fn, call.Pos(), key("sentinel"), "the guards that dominate the integrator call reject exactly PowerOutput 0 and 1", fmt.Sprintf("%d cells compared; guards: %s", pts, factsText(rel)))
+	if h := firstRepoCallee(p, handler); h != nil && handler.Parent() != nil {
+		handler = h
 	}
+	n := 0
+	for _, site := range p.CallSites(integ) {
+		if call, ok := site.(*ssa.Call); ok && site.Parent() == handler && len(call.Call.Args) >= 2 {
+			n++
+			windowPred(c, call)
+		}
+	}
+	c.Count("PRED-window", n)
+	c.Floor("PRED-window", 1)
 }
 
 func factsText(fs []an.Fact) string {
